@@ -268,13 +268,292 @@ def encode_bloom(c, o):
     return tm((c["m"], o["k"], table, ops, obs))
 
 
+def slot_schedule(rng, n_items, weighted=True, max_len=20, extra=3, n_slots=3, query=None):
+    """Stream split at a random point into slots 0/1, the whole stream into slot 2,
+    randomly interleaved; then merge(0,1), a few more adds/merges, then queries."""
+    length = rng.choice([0, 1, 2, rng.randint(3, max_len)])
+    s = gen_stream(rng, n_items, length, weighted)
+    cut = rng.randint(0, len(s))
+    queues = [[["add", 0, x, c] for x, c in s[:cut]], [["add", 1, x, c] for x, c in s[cut:]],
+              [["add", 2, x, c] for x, c in s]]
+    ops = []
+    while any(queues):
+        q = rng.choice([q for q in queues if q])
+        ops.append(q.pop(0))
+        if query and rng.random() < 0.15:
+            ops.append([query, ops[-1][1], rng.randrange(len(ITEMS))])
+    ops.append(["merge", 0, 1])
+    for _ in range(rng.randint(0, extra)):
+        if rng.random() < 0.5:
+            ops.append(["add", rng.randrange(n_slots), rng.randrange(n_items), rng.choice([1, 1, 2, 0, -2])])
+        else:
+            ops.append(["merge", rng.randrange(n_slots), rng.randrange(n_slots)])
+    if query:
+        for sl in range(3):
+            for x in range(len(ITEMS)):
+                if x < n_items or rng.random() < 0.3:
+                    ops.append([query, sl, x])
+    return ops
+
+
+# --------------------------------------------------------------------------- Count-Min
+def gen_cms(rng):
+    n_items = rng.randint(1, len(ITEMS))
+    return dict(w=rng.choice([1, 2, 3, 5, 8]), d=rng.choice([1, 2, 3, 4]), seed=rng.choice([None, 0, 7]),
+                ops=slot_schedule(rng, n_items, query="est"))
+
+
+def _cms_state(s):
+    return [[list(row) for row in s._counters], s._total_count]
+
+
+def impl_cms(c):
+    import happysimulator.sketching.count_min_sketch as mod
+    mk = lambda: mod.CountMinSketch(width=c["w"], depth=c["d"], seed=c["seed"])  # noqa: E731
+    slots = [mk() for _ in range(3)]
+    streams = [[] for _ in range(3)]
+    obs, homo = [], []
+    for o in c["ops"]:
+        raised, est = False, 0
+        if o[0] == "add":
+            try:
+                slots[o[1]].add(obj(o[2]), o[3])
+                streams[o[1]].append((o[2], o[3]))
+            except ValueError:
+                raised = True
+        elif o[0] == "merge":
+            other = slots[o[2]]
+            before = _cms_state(other)
+            slots[o[1]].merge(other)
+            if o[1] != o[2] and _cms_state(other) != before:
+                raise AssertionError("merge changed its argument")
+            streams[o[1]] = streams[o[1]] + streams[o[2]]
+            ref = mk()
+            for x, cnt in streams[o[1]]:
+                ref.add(obj(x), cnt)
+            homo.append([_cms_state(slots[o[1]]), _cms_state(ref)])
+        else:
+            est = slots[o[1]].estimate(obj(o[2]))
+            if slots[o[1]].estimate_with_error(obj(o[2])).count != est:
+                raise AssertionError("estimate_with_error.count != estimate")
+        obs.append(_cms_state(slots[o[1]]) + [raised, est])
+    table = []
+    with patched(mod) as rec:
+        for x in range(len(ITEMS)):
+            for r in range(c["d"]):
+                rec.digests.clear()
+                col = slots[0]._hash(obj(x), r)
+                h = struct.unpack(">Q", rec.digests[-1][:8])[0] if rec.digests else col
+                table.append([x, r, h])
+    return dict(obs=obs, table=table, homo=homo)
+
+
+def oracle_cms(c, o):
+    from collections import Counter
+    true = [Counter() for _ in range(3)]
+    out, hi = [], 0
+    for op, ob in zip(c["ops"], o["obs"]):
+        if op[0] == "add" and op[3] > 0:
+            true[op[1]][op[2]] += op[3]
+        elif op[0] == "merge":
+            true[op[1]] = true[op[1]] + true[op[2]]
+            got, ref = o["homo"][hi]
+            hi += 1
+            if got != ref:
+                out.append(dict(clause="count-min: merge gives exactly the sketch of the concatenated streams",
+                                op=op, merged=got, single=ref))
+        elif op[0] == "est":
+            if ob[3] < true[op[1]][op[2]]:
+                out.append(dict(clause="count-min: never underestimates a count", op=op, estimate=ob[3],
+                                true=true[op[1]][op[2]]))
+    return out[:3]
+
+
+def encode_cms(c, o):
+    m = {"add": "CAdd", "merge": "CMerge", "est": "CEst"}
+    ops = [Ctor(m[op[0]], *op[1:]) for op in c["ops"]]
+    table = [((x, r), h) for x, r, h in o["table"]]
+    obs = [(ob[0], ob[1], ob[2], ob[3]) for ob in o["obs"]]
+    return tm((c["w"], c["d"], table, ops, obs))
+
+
+# --------------------------------------------------------------------------- HyperLogLog
+SEEDS = [None, 0, 5]          # seed ids 0,1 are the same configuration (None -> 0); id 2 differs
+
+
+def gen_hll(rng):
+    n_items = rng.randint(1, len(ITEMS))
+    p = rng.choice([4, 4, 4, 5, 6])
+    ops = slot_schedule(rng, n_items, max_len=16 if p == 4 else 8, extra=4, n_slots=4)
+    slot_seed = [0, rng.choice([0, 1]), 0, 2]      # slot 3 is built with a different seed
+    return dict(p=p, slot_seed=slot_seed, ops=ops)
+
+
+def _hll_state(s):
+    return [list(s._registers), s._total_count]
+
+
+def impl_hll(c):
+    from happysimulator.sketching.hyperloglog import HyperLogLog
+    mk = lambda sl: HyperLogLog(precision=c["p"], seed=SEEDS[c["slot_seed"][sl]])  # noqa: E731
+    slots = [mk(i) for i in range(4)]
+    streams = [[] for _ in range(4)]
+    obs, homo = [], []
+    for o in c["ops"]:
+        raised = False
+        if o[0] == "add":
+            try:
+                slots[o[1]].add(obj(o[2]), o[3])
+                streams[o[1]].append((o[2], o[3]))
+            except ValueError:
+                raised = True
+        else:
+            other = slots[o[2]]
+            before = _hll_state(other)
+            try:
+                slots[o[1]].merge(other)
+                if o[1] != o[2] and _hll_state(other) != before:
+                    raise AssertionError("merge changed its argument")
+                streams[o[1]] = streams[o[1]] + streams[o[2]]
+                ref = mk(o[1])
+                for x, cnt in streams[o[1]]:
+                    ref.add(obj(x), cnt)
+                homo.append([o, _hll_state(slots[o[1]]), _hll_state(ref)])
+            except ValueError:
+                raised = True
+        obs.append(_hll_state(slots[o[1]]) + [raised])
+    eff = lambda sid: 0 if SEEDS[sid] is None else SEEDS[sid]  # noqa: E731
+    table = []
+    for sid in sorted(set(c["slot_seed"])):
+        probe = HyperLogLog(precision=c["p"], seed=SEEDS[sid])
+        for x in range(len(ITEMS)):
+            table.append([eff(sid), x, probe._hash(obj(x))])
+    return dict(obs=obs, table=table, homo=homo, seeds=[eff(sid) for sid in c["slot_seed"]])
+
+
+def oracle_hll(c, o):
+    out = []
+    for op, got, ref in o["homo"]:
+        if got != ref:
+            out.append(dict(clause="hyperloglog: merge gives exactly the sketch of the concatenated streams",
+                            mechanism="seed-mismatch-merged" if o["seeds"][op[1]] != o["seeds"][op[2]] else "merge",
+                            op=op, merged=got, single=ref))
+    return out[:3]
+
+
+def encode_hll(c, o):
+    ops = [Ctor("HAdd" if op[0] == "add" else "HMerge", *op[1:]) for op in c["ops"]]
+    table = [((sd, x), h) for sd, x, h in o["table"]]
+    seeds = [(i, sd) for i, sd in enumerate(o["seeds"])]
+    obs = [(ob[0], ob[1], ob[2]) for ob in o["obs"]]
+    return tm((c["p"], seeds, table, ops, obs))
+
+
+# --------------------------------------------------------------------------- TopK
+def gen_topk(rng):
+    n_items = rng.randint(1, len(ITEMS))
+    return dict(k=rng.choice([1, 2, 3, 4, 6]), ops=slot_schedule(rng, n_items, max_len=30, query="est"))
+
+
+def _topk_state(s):
+    return [[[ITEMS.index(c.item), c.count, c.error] for c in s._counters.values()], s._total_count]
+
+
+def impl_topk(c):
+    from happysimulator.sketching.topk import TopK
+    slots = [TopK(k=c["k"]) for _ in range(3)]
+    obs = []
+    for o in c["ops"]:
+        raised, ee = False, [0, 0]
+        s = slots[o[1]]
+        if o[0] == "add":
+            try:
+                s.add(obj(o[2]), o[3])
+            except ValueError:
+                raised = True
+        elif o[0] == "merge":
+            s.merge(slots[o[2]])
+        else:
+            fe = s.estimate_with_error(obj(o[2]))
+            if fe.count != s.estimate(obj(o[2])) or (obj(o[2]) in s) != (fe.count > 0 or any(
+                    cn.item == obj(o[2]) for cn in s._counters.values())):
+                raise AssertionError("estimate / __contains__ / estimate_with_error disagree")
+            ee = [fe.count, fe.error]
+        top = [[ITEMS.index(e.item), e.count, e.error] for e in s.top()]
+        st = _topk_state(s)
+        if sorted(top, key=lambda e: -e[1]) != top or sorted(top) != sorted(st[0]) or s.tracked_count != len(top):
+            raise AssertionError("top() is not the tracked counters sorted by count")
+        obs.append(st + [raised, ee, s.max_error(), s.guaranteed_threshold()])
+    return dict(obs=obs)
+
+
+def oracle_topk(c, o):
+    from collections import Counter
+    true = [Counter() for _ in range(3)]
+    merged = [False] * 3
+    out = []
+    for op, ob in zip(c["ops"], o["obs"]):
+        sl = op[1]
+        if op[0] == "add" and op[3] > 0:
+            true[sl][op[2]] += op[3]
+        elif op[0] == "merge":
+            merged[sl] = True
+        if merged[sl]:
+            continue                      # the property speaks about streams of adds
+        cnt, total = ob[0], ob[1]
+        n = sum(true[sl].values())
+        tracked = {e[0]: e for e in cnt}
+        for x, (_, count, err) in tracked.items():
+            if not (count - err <= true[sl][x] <= count):
+                out.append(dict(clause="topk: estimate exceeds the true count by at most the reported error",
+                                op=op, item=x, count=count, error=err, true=true[sl][x]))
+        if total != n or sum(e[1] for e in cnt) != n or len(cnt) > c["k"]:
+            out.append(dict(clause="topk: counters sum to N and at most k are kept", op=op, total=total, n=n, counters=cnt))
+        if ob[5] != n // c["k"]:
+            out.append(dict(clause="topk: guaranteed_threshold = N // k", op=op, got=ob[5]))
+        for x, t in true[sl].items():
+            if t > n // c["k"] and x not in tracked:
+                out.append(dict(clause="topk: every item more frequent than N/k is tracked", op=op, item=x, true=t, n=n))
+        if op[0] == "est":
+            e_cnt, e_err = ob[3]
+            t = true[sl][op[2]]
+            if e_cnt - e_err > t or (op[2] not in tracked and t > e_err):
+                out.append(dict(clause="topk: estimate_with_error bounds the true count", op=op, got=ob[3], true=t))
+        if out:
+            break
+    return out[:3]
+
+
+def encode_topk(c, o):
+    m = {"add": "TAdd", "merge": "TMerge", "est": "TEst"}
+    ops = [Ctor(m[op[0]], *op[1:]) for op in c["ops"]]
+    obs = [([(e[0], (e[1], e[2])) for e in ob[0]], ob[1], ob[2], tuple(ob[3]), ob[4], ob[5]) for ob in o["obs"]]
+    return tm((c["k"], ops, obs))
+
+
 # --------------------------------------------------------------------------- families
 FAMILIES = [
     Family("bloom", IMPORTS, "ok_bloom", "Z * Z * list (Z * Z * (Z * Z)) * list b_op * list b_obs",
            gen_bloom, impl_bloom, encode_bloom, oracle_bloom,
            lambda c, o: any(op[0] == "add" and op[3] > 0 for op in c["ops"]),
            describe=lambda c: f"m={c['m']}"),
+    Family("cms", IMPORTS, "ok_cms", "Z * Z * list (Z * Z * Z) * list c_op * list c_obs",
+           gen_cms, impl_cms, encode_cms, oracle_cms,
+           lambda c, o: any(op[0] == "add" and op[3] > 0 for op in c["ops"]),
+           describe=lambda c: f"w={c['w']},d={c['d']}"),
+    Family("hll", IMPORTS, "ok_hll", "Z * list (Z * Z) * list (Z * Z * Z) * list h_op * list h_obs",
+           gen_hll, impl_hll, encode_hll, oracle_hll,
+           lambda c, o: any(op[0] == "add" and op[3] > 0 for op in c["ops"]),
+           describe=lambda c: f"p={c['p']}"),
+    Family("topk", IMPORTS, "ok_topk", "Z * list t_op * list t_obs",
+           gen_topk, impl_topk, encode_topk, oracle_topk,
+           lambda c, o: any(len(ob[0]) >= c["k"] for ob in o["obs"]),
+           describe=lambda c: f"k={c['k']}"),
 ]
+
+PROOF_FILES = ["C20/Model.v", "C20/Bloom.v", "C20/Counting.v", "C20/TopK.v", "C20/Props.v"]
+
+WEIGHT = {}
 
 TRUSTED = [
     "Coq 8.16.1 kernel (coqc, vm_compute for refutation witnesses and case evaluation); no native_compute",
@@ -284,10 +563,13 @@ TRUSTED = [
 
 
 def run(ctx):
-    ctx.prove(["C20/Model.v", "C20/Bloom.v", "C20/Props.v"], allowed_axioms=(), trusted_base=TRUSTED)
-    n = ctx.n(200, 4000)
+    ctx.prove(PROOF_FILES, allowed_axioms=(), trusted_base=TRUSTED)
+    n = ctx.n(120, 3000)
     fctx = FastCtx(ctx)
-    stats = [run_family(fctx, fam, n) for fam in FAMILIES]
+    stats = []
+    for fam in FAMILIES:
+        stats.append(run_family(fctx, fam, max(1, int(n * WEIGHT.get(fam.name, 1.0)))))
+        ctx.log(f"family {fam.name}: {stats[-1]['cases']} cases, mismatches={stats[-1]['mismatches']}, oracle_failures={stats[-1]['oracle_failures']}")
     merge_stats(ctx, stats, "random structured streams/schedules over a 12-item universe and tiny dimensions (forced collisions); non-trivial = at least one effective add; distinct by JSON of the input")
     ctx.finish_obligations()
 
